@@ -27,6 +27,10 @@ def main():
         if a.startswith("--props="):
             props = a.split("=", 1)[1].split(",")
     wt = f"/tmp/vs/{sid}"
+    rev = "HEAD"   # which commit of /verif the check is taken from (--rev=<commit>: e.g. while a builder's half-finished work is in HEAD)
+    for a in sys.argv:
+        if a.startswith("--rev="):
+            rev = a.split("=", 1)[1]
     os.makedirs("/tmp/vs", exist_ok=True)
     sh(f"git -C /repo worktree remove --force {wt}")
     rc, out = sh(f"git -C /repo worktree add -q --detach {wt} HEAD")
@@ -60,7 +64,7 @@ def main():
         # lean/LinOp/Generated files of the patched tree never disturb /verif itself or a builder working there
         vcopy = f"/tmp/vcopy/{sid}"
         os.makedirs("/tmp/vcopy", exist_ok=True)
-        sh(f"rm -rf {vcopy} && mkdir -p {vcopy} && git -C {VERIF} archive HEAD | tar -x -C {vcopy} && rsync -a {VERIF}/lean/.lake {vcopy}/lean/")  # committed /verif (HEAD) + build cache
+        sh(f"rm -rf {vcopy} && mkdir -p {vcopy} && git -C {VERIF} archive {rev} | tar -x -C {vcopy} && rsync -a {VERIF}/lean/.lake {vcopy}/lean/")  # committed /verif (HEAD) + build cache
         for p in props:
             t = time.time()
             rcc, outc = sh(f"./check {p} --tier quick", cwd=vcopy, env={"VERIF_REPO": wt}, timeout=3000)
